@@ -151,6 +151,11 @@ fn search(args: &HiArgs, mode: SearchMode) -> anyhow::Result<bool> {
         let wtr = searcher.printer().get_mut();
         let _ = print_stats(mode, stats, started_at, wtr);
     }
+    // Results may still sit in a block buffered stdout. If they cannot be
+    // written, that is an error like any other failed write (or a graceful
+    // termination if the pipe is closed, which `main` sorts out). Dropping
+    // the writer would swallow it.
+    searcher.printer().get_mut().flush()?;
     Ok(matched)
 }
 
@@ -281,6 +286,9 @@ fn files(args: &HiArgs) -> anyhow::Result<bool> {
             return Err(err.into());
         }
     }
+    // Same for what is still buffered when we're done. (`main` knows what to
+    // do with a broken pipe.)
+    path_printer.get_mut().flush()?;
     Ok(matched)
 }
 
@@ -314,7 +322,7 @@ fn files_parallel(args: &HiArgs) -> anyhow::Result<bool> {
         for haystack in rx.iter() {
             path_printer.write(haystack.path())?;
         }
-        Ok(())
+        path_printer.get_mut().flush()
     });
     args.walk_builder()?.build_parallel().run(|| {
         let haystack_builder = &haystack_builder;
